@@ -231,7 +231,7 @@ def gen_program(rng, opts=None):
                     if kind == "rename":
                         a, b = r.choice(domains)["name"], r.choice(domains)["name"]
                         if a != b:
-                            m["wrap"].append(["rename", {a: b}])
+                            m["wrap"].append(["rename", {a: b} if r.random() < 0.6 else {a: b, b: a}])
                     else:
                         sigs.append({"name": "ctl", "width": 1, "signed": False, "init": 0, "reset_less": False, "role": "ctl"})
                         ctl.append(len(sigs) - 1)
